@@ -174,6 +174,17 @@ func (c *Ctx) sparseCase(specs []blobSpec, pads []int, resPad, tailPad int) {
 		c.oracle()
 		if seqs == nil && o != "ok []" {
 			c.violate("C20", "", fmt.Sprintf("ParseShares(ignorePadding=%v) failed on shares written for [%s]: %s", ign, strings.TrimSpace(desc), o), "", c.caseOps)
+			if _, perr := func() (s []share.Sequence, e error) {
+				defer func() {
+					if r := recover(); r != nil {
+						e = nil
+					}
+				}()
+				return share.ParseShares(shares, ign)
+			}(); perr != nil && strings.Contains(perr.Error(), "but needed") {
+				// the parser's own share-count prediction disagrees with what the encoder produced
+				c.violate("C13", "", fmt.Sprintf("ParseShares predicts a different share count than the encoder produced for [%s]: %v", strings.TrimSpace(desc), perr), "", c.caseOps)
+			}
 			continue
 		}
 		if !ign {
@@ -332,8 +343,13 @@ func streamSparse(c *Ctx) {
 				pads[j] = c.rng.Range(0, 4)
 			}
 		}
-		// shares are expected in namespace order by ParseShares' consumers; keep blobs sorted
-		sort.SliceStable(specs, func(a, b int) bool { return bytes.Compare(specs[a].ns, specs[b].ns) < 0 })
+		// a data square holds blobs in namespace order, but the round trip is stated for any sequence of
+		// blobs: keep every other list in the order it was drawn
+		if i%2 == 0 {
+			sort.SliceStable(specs, func(a, b int) bool { return bytes.Compare(specs[a].ns, specs[b].ns) < 0 })
+		} else {
+			c.dist("unsorted-namespaces")
+		}
 		c.sparseCase(specs, pads, c.rng.Intn(3), c.rng.Intn(3))
 		c.dist(fmt.Sprintf("blobs=%d", k))
 	}
